@@ -929,6 +929,7 @@ class Server:
             response=lambda *args: response_queue.put_nowait(args),
             acquired=False,
             restart_offset=0,
+            passive_server_lock=asyncio.Lock(),
             _dispatcher=get_current_task(),
         )
         connection.path_io = self.path_io_factory(
@@ -1496,16 +1497,19 @@ class Server:
                     timeout=connection.socket_timeout,
                 )
 
-        if not connection.future.passive_server.done():
-            coro = self._start_passive_server(connection, handler)
-            try:
-                connection.passive_server = await coro
-            except errors.NoAvailablePort:
-                connection.response("421", ["no free ports"])
-                return False
-            code, info_template = "227", "listen socket created {address}"
-        else:
-            code, info_template = "227", "listen socket already exists {address}"
+        # lock: next PASV/EPSV of this session can arrive before the
+        # listener of the previous one is ready
+        async with connection.passive_server_lock:
+            if not connection.future.passive_server.done():
+                coro = self._start_passive_server(connection, handler)
+                try:
+                    connection.passive_server = await coro
+                except errors.NoAvailablePort:
+                    connection.response("421", ["no free ports"])
+                    return False
+                code, info_template = "227", "listen socket created {address}"
+            else:
+                code, info_template = "227", "listen socket already exists {address}"
 
         for sock in connection.passive_server.sockets:
             if sock.family == socket.AF_INET:
@@ -1546,16 +1550,17 @@ class Server:
             code, info = "522", ["custom protocols support not implemented"]
             connection.response(code, info)
             return True
-        if not connection.future.passive_server.done():
-            coro = self._start_passive_server(connection, handler)
-            try:
-                connection.passive_server = await coro
-            except errors.NoAvailablePort:
-                connection.response("421", ["no free ports"])
-                return False
-            code, info = "229", ["listen socket created"]
-        else:
-            code, info = "229", ["listen socket already exists"]
+        async with connection.passive_server_lock:
+            if not connection.future.passive_server.done():
+                coro = self._start_passive_server(connection, handler)
+                try:
+                    connection.passive_server = await coro
+                except errors.NoAvailablePort:
+                    connection.response("421", ["no free ports"])
+                    return False
+                code, info = "229", ["listen socket created"]
+            else:
+                code, info = "229", ["listen socket already exists"]
 
         for sock in connection.passive_server.sockets:
             if sock.family in (socket.AF_INET, socket.AF_INET6):
